@@ -506,7 +506,14 @@ func (c *Ctx) WriteEvidence() {
 		"wall_s":      since(c.Start),
 		"violations":  len(c.Violations),
 	}
-	WriteJSON(filepath.Join(VerifDir, "evidence", c.ID+".json"), ev)
+	evDir := filepath.Join(VerifDir, "evidence")
+	if RepoDir != "/repo" {
+		// a run against another tree (a seeded change in a scratch worktree) must not overwrite
+		// the evidence of /repo
+		evDir = filepath.Join(VerifDir, "replays", "evidence_other_tree")
+		os.MkdirAll(evDir, 0o755)
+	}
+	WriteJSON(filepath.Join(evDir, c.ID+".json"), ev)
 }
 
 // NeedCovers requires each cover point to be reached by at least one job of this check.
